@@ -68,11 +68,7 @@ impl VStack {
         self.0.last_mut().unwrap()
     }
     fn find_upvalue(&self, v: &Arc<mir::Value>) -> Option<Reg> {
-        self.0
-            .iter()
-            .rev()
-            .skip(1)
-            .find_map(|vreg| vreg.find_keep(v))
+        self.0.iter().rev().find_map(|vreg| vreg.find_keep(v))
     }
     pub fn push_stack(&mut self, v: &Arc<mir::Value>, size: u64) -> Reg {
         self.get_top().push_stack(v, size)
@@ -672,19 +668,7 @@ impl ByteCodeGenerator {
                 None
             }
             mir::Instruction::GetUpValue(i, ty) => {
-                let upval = &mirfunc.upindexes[i as usize];
-                let v = self.find_upvalue(upval);
                 let size: TypeSize = Self::word_size_for_type(ty);
-                let ouv = mir::OpenUpValue {
-                    pos: v as usize,
-                    size,
-                    is_closure: ty.to_type().is_function(),
-                };
-                if let Some(ui) = funcproto.upindexes.get_mut(i as usize) {
-                    *ui = ouv;
-                } else {
-                    funcproto.upindexes.push(ouv);
-                }
                 let d = self.vregister.get_top().add_newvalue_range(&dst, size as _);
                 Some(VmInstruction::GetUpValue(
                     d,
@@ -693,19 +677,6 @@ impl ByteCodeGenerator {
                 ))
             }
             mir::Instruction::SetUpValue(dst, src, ty) => {
-                let upval = &mirfunc.upindexes[dst as usize];
-                let v = self.find_upvalue(upval);
-                let size: TypeSize = Self::word_size_for_type(ty);
-                let ouv = mir::OpenUpValue {
-                    pos: v as usize,
-                    size,
-                    is_closure: ty.to_type().is_function(),
-                };
-                if let Some(ui) = funcproto.upindexes.get_mut(dst as usize) {
-                    *ui = ouv;
-                } else {
-                    funcproto.upindexes.push(ouv);
-                }
                 let s = self.find(&src);
                 Some(VmInstruction::SetUpValue(
                     dst as Reg,
@@ -1401,6 +1372,18 @@ impl ByteCodeGenerator {
             state_skeleton: mirfunc.state_skeleton.clone(), // Transfer state skeleton from MIR
             ..Default::default()
         };
+        for (upval, ty) in mirfunc.upindexes.iter() {
+            let (pos, outer_i) = match upval.as_ref() {
+                mir::Value::UpValue(i) => (0, Some(*i)),
+                _ => (self.find_upvalue(upval) as usize, None),
+            };
+            func.upindexes.push(mir::OpenUpValue {
+                pos,
+                size: Self::word_size_for_type(*ty),
+                is_closure: ty.to_type().is_function(),
+            });
+            func.outer_upindexes.push(outer_i);
+        }
         self.vregister.0.push(VRegister::default());
         for (i, a) in mirfunc.args.iter().enumerate() {
             let size = Self::word_size_for_type(a.1);
